@@ -366,6 +366,30 @@ def read_ndjson(path):
 
 def judge_trace(ctx, spec, tracefile, workers=8, cfg=None, slim=None, timeout=1800, deque=False, label=None):
     """Validate an implementation trace against a trace spec; report every rejected case."""
+    # a trace too large for one TLC process (its JSON is held in memory several times over) is judged in pieces;
+    # the monitors treat every line independently, so the verdicts are the same
+    LIMIT = 48 * 1024 * 1024
+    if os.path.getsize(tracefile) > LIMIT and not tracefile.endswith(".part"):
+        all_cases, last, part, size, k = [], None, None, 0, 0
+        with open(tracefile) as f:
+            for line in f:
+                if part is None or size > LIMIT:
+                    if part:
+                        part.close()
+                        last, cs = judge_trace(ctx, spec, pname, workers, cfg, slim, timeout, deque, "%s#%d" % (label or spec, k))
+                        all_cases += cs
+                        os.remove(pname)
+                    k += 1
+                    pname = "%s.%d.part" % (tracefile, k)
+                    part, size = open(pname, "w"), 0
+                part.write(line)
+                size += len(line)
+        if part:
+            part.close()
+            last, cs = judge_trace(ctx, spec, pname, workers, cfg, slim, timeout, deque, "%s#%d" % (label or spec, k))
+            all_cases += cs
+            os.remove(pname)
+        return last, all_cases
     cases = read_ndjson(tracefile)
     if not cases:
         raise ToolError("empty trace " + tracefile)
